@@ -234,7 +234,10 @@ func (s Server) Serve(c context.Context, conn network.Conn) (err error) {
 		}
 
 		// Read Headers
+		isHead := false
 		if err = req.ReadHeader(&ctx.Request.Header, zr); err == nil {
+			// remembered here: the body readers reset the request when they fail
+			isHead = ctx.Request.Header.IsHead()
 			if s.EnableTrace {
 				// read header finished
 				if last := eventsToTrigger.pop(); last != nil {
@@ -273,7 +276,7 @@ func (s Server) Serve(c context.Context, conn network.Conn) (err error) {
 			if err == io.EOF {
 				return errUnexpectedEOF
 			}
-			writeErrorResponse(zw, ctx, serverName, err)
+			writeErrorResponse(zw, ctx, serverName, err, isHead)
 			return
 		}
 
@@ -310,7 +313,7 @@ func (s Server) Serve(c context.Context, conn network.Conn) (err error) {
 				}
 
 				if err != nil {
-					writeErrorResponse(zw, ctx, serverName, err)
+					writeErrorResponse(zw, ctx, serverName, err, isHead)
 					return
 				}
 			}
@@ -464,10 +467,14 @@ func NewServer() *Server {
 	}
 }
 
-func writeErrorResponse(zw network.Writer, ctx *app.RequestContext, serverName []byte, err error) network.Writer {
+func writeErrorResponse(zw network.Writer, ctx *app.RequestContext, serverName []byte, err error, isHead ...bool) network.Writer {
 	errorHandler := defaultErrorHandler
 
 	errorHandler(ctx, err)
+	if len(isHead) > 0 && isHead[0] {
+		// a response to HEAD never carries content (RFC 9110 section 9.3.2)
+		ctx.Response.SkipBody = true
+	}
 
 	if serverName != nil {
 		ctx.Response.Header.SetServerBytes(serverName)
